@@ -454,7 +454,7 @@ func (fr *Frame) applyContract(con *Contract, tgt callTarget, args [][]string, a
 	for _, c := range con.Ensures {
 		g, err := env.evalBool(c.E)
 		if err != nil {
-			if strings.Contains(err.Error(), "unresolved name") {
+			if strings.Contains(err.Error(), "unresolved name") && calleeHasLocal(tgt.fn, err.Error()) {
 				// a clause about the callee's own locals (checked when the callee is verified): not usable here
 				continue
 			}
@@ -592,6 +592,13 @@ func (fr *Frame) havocTarget(env *Env, e Expr, st *State) error {
 		fr.havocRange(st, v.Addr, v.T)
 		return nil
 	case ECall:
+		if x.Fun == "deep" {
+			// deep(x): objects reachable through the values x holds (e.g. the linear expressions boxed in a
+			// slice of Variables), not x's own cells: nothing to havoc in the typed memory, where such boxes
+			// are immutable values; the frame check accounts for the write through x
+			fr.vc.assumptions["assigns deep(x): the callee may reorder/modify objects held by x's elements without changing what the contracts' spec functions read from them"] = true
+			return nil
+		}
 		if gs, ok := fr.eng.cs.Ghosts[x.Fun]; ok && len(x.Args) == 1 {
 			// whole ghost row of the object
 			o, err := env.eval(x.Args[0])
@@ -945,4 +952,35 @@ func resultAlias(con *Contract) string {
 		}
 	}
 	return ""
+}
+
+// calleeHasLocal: is the unresolved name of the error message a local variable of the callee?
+func calleeHasLocal(fn *ssa.Function, msg string) bool {
+	i := strings.Index(msg, "unresolved name \"")
+	if fn == nil || i < 0 {
+		return false
+	}
+	name := msg[i+len("unresolved name \""):]
+	if j := strings.Index(name, "\""); j >= 0 {
+		name = name[:j]
+	}
+	for _, b := range fn.Blocks {
+		for _, in := range b.Instrs {
+			switch x := in.(type) {
+			case *ssa.DebugRef:
+				if identName(x) == name {
+					return true
+				}
+			case *ssa.Alloc:
+				if x.Comment == name {
+					return true
+				}
+			case *ssa.Phi:
+				if x.Comment == name {
+					return true
+				}
+			}
+		}
+	}
+	return false
 }
